@@ -40,8 +40,10 @@ def mk_history(rng, n, periodic=0):
                 force = rng.sample(OPTION_NAMES, rng.choice([1, 2, 4]))      # make sure every option is set in some call ...
             ini, label = gen_config(rng, volatile=False, force=force)
             unread = ini is not None and rng.random() < 0.06
+            if force is None and not unread and rng.random() < 0.05:
+                ini, label = None, "directory"
             base.append((ini, label, unread))
-        steps.append({"ini": hexs(ini), "label": label + ("+unreadable" if unread else ""), "unreadable": unread, "call": list(mk_call(rng, k))})
+        steps.append({"ini": hexs(ini), "label": label + ("+unreadable" if unread else ""), "unreadable": unread, "dir": label == "directory", "call": list(mk_call(rng, k))})
     return steps
 
 
@@ -51,10 +53,19 @@ def step_call_line(st):
 
 
 def script_of(steps):
+    """the configuration path is rewritten / removed / replaced by a DIRECTORY (pre-made adir<k> of the run directory renamed onto it) between calls"""
     lines = list(SINKS) + [ENVLINE]
     unread = []
+    isdir = False
     for k, st in enumerate(steps):
-        lines.append("ini\t" + st["ini"])
+        if isdir:
+            lines.append("rename\t@D@/snoopy.ini\t@D@/wasdir%d" % k)
+            isdir = False
+        if st.get("dir"):
+            lines += ["ini\t~", "rename\t@D@/adir%d\t@D@/snoopy.ini" % k]
+            isdir = True
+        else:
+            lines.append("ini\t" + st["ini"])
         if k >= 1:
             lines.append("errno\t2")        # the previous exec failed with ENOENT and nobody cleared errno since (a fresh process starts with 0)
         lines.append(step_call_line(st))
@@ -62,6 +73,13 @@ def script_of(steps):
             unread.append(k)
     fault = "fopen:1:13:%s" % ",".join(map(str, unread)) if unread else None
     return lines, fault
+
+
+def premake_dirs(run, tag, steps):
+    d = os.path.join(run.scratch, "sys-" + tag)
+    for k, st in enumerate(steps):
+        if st.get("dir"):
+            os.makedirs(os.path.join(d, "adir%d" % k), exist_ok=True)
 
 
 def canon(data_hex, rundir, pid):
@@ -100,12 +118,14 @@ def is_prod(variant):
 
 def run_history(run, libs, variant, steps, tag):
     script, fault = script_of(steps)
+    premake_dirs(run, tag, steps)
     r = run_life(run, lib_of(libs, variant), script, tag, fault=fault, timeout=180, prod=is_prod(variant))
     return r, script, fault
 
 
 def fresh_ref(run, libs, variant, st, tag):
     script, fault = script_of([st])
+    premake_dirs(run, tag, [st])
     r = run_life(run, lib_of(libs, variant), script, tag, fault=fault, timeout=60, prod=is_prod(variant))
     ob = observations(r)
     return (ob.get(0), r["status"])
@@ -122,7 +142,7 @@ class Refs:
         self.run, self.libs, self.cache, self.n = run, libs, {}, 0
 
     def key(self, variant, st):
-        return (variant, st["ini"], bool(st.get("unreadable")), json.dumps(st["call"], default=lambda b: b.hex() if isinstance(b, bytes) else b))
+        return (variant, st["ini"], bool(st.get("unreadable")), bool(st.get("dir")), json.dumps(st["call"], default=lambda b: b.hex() if isinstance(b, bytes) else b))
 
     def fill(self, wanted):
         todo, seen = [], set()
@@ -152,14 +172,14 @@ def norm_step(st):
     """steps carry bytes in 'call'; make them JSON-able and back"""
     api, path, argv, envp = st["call"]
     conv = lambda x: x.hex() if isinstance(x, bytes) else x
-    return {"ini": st["ini"], "label": st.get("label", ""), "unreadable": bool(st.get("unreadable")),
+    return {"ini": st["ini"], "label": st.get("label", ""), "unreadable": bool(st.get("unreadable")), "dir": bool(st.get("dir")),
             "call": [api, conv(path), [conv(a) for a in argv] if argv is not None else None, [conv(a) for a in envp] if envp is not None else None]}
 
 
 def denorm_step(st):
     api, path, argv, envp = st["call"]
     conv = lambda x: bytes.fromhex(x) if isinstance(x, str) else x
-    return {"ini": st["ini"], "label": st.get("label", ""), "unreadable": bool(st.get("unreadable")),
+    return {"ini": st["ini"], "label": st.get("label", ""), "unreadable": bool(st.get("unreadable")), "dir": bool(st.get("dir")),
             "call": [api, conv(path), [conv(a) for a in argv] if argv is not None else None, [conv(a) for a in envp] if envp is not None else None]}
 
 
